@@ -160,6 +160,11 @@ def level_counts_up(f, op):
     """The index operand is produced by a forward `0..n` range (or an index that starts at 0 and is only
     incremented); nothing in its slice reverses or decrements it."""
     srcs, _ = P.value_slice(f, op)
+    idx_srcs = [s for s in P.origins(f, op) if s["k"] == "index"]
+    if idx_srcs and all(s.get("from") == 0 and s.get("plain") for s in idx_srcs):
+        others = [s for s in P.origins(f, op) if s["k"] not in ("index", "call", "field")]
+        if not others:
+            return True, "the running index of enumerate() over an un-reversed chain"
     calls = {s["callee"] for s in srcs if s["k"] == "call"}
     back = sorted(c for c in calls if re.search(r"Rev\b|::rev$|next_back$|::rfold$|::rposition$|::nth_back$", c))
     subs = [s for s in srcs if s["k"] == "bin" and s["op"].startswith("Sub")]
